@@ -229,6 +229,17 @@ func check(c Case) (string, string) {
 	if d := geomgen.Diff(g, got, true); d != "" {
 		return "parses-to-different-geometry", d + ": " + string(enc)
 	}
+	// memory layout: the geometry with its vertex slices cut from one flat
+	// buffer encodes to the same text and is not written to
+	if sym, det := geomgen.LayoutCheck(g, func(x geom.Geom) string {
+		var o string
+		if p := try(func() { b, err := wkt.Encode(x); o = fmt.Sprintf("%s %v", b, err) }); p != "" {
+			return "panic: " + p
+		}
+		return o
+	}); sym != "" {
+		return "encode|" + sym, det
+	}
 	// the bytes returned earlier must not change when Encode is called again
 	// (history: Encode, Encode, then use the first result)
 	saved := string(enc)
